@@ -30,11 +30,15 @@ A *control* run of the same chain around a deterministic stand-in of the site
 separates compositions JAX itself rejects (e.g. reverse-mode through
 while_loop) from findings: they are counted as jax_rejects_composition.
 
-Violation keys name the minimal sub-chain that still shows the symptom (greedy
-delta-minimisation over sub-chains, outermost construct dropped first); in keys
-grad / value_and_grad / jvp are written AD, and in the unseeded leg a compiling
-construct that is only the witness of "something gets compiled" next to other
-constructs is written COMPILED.  The concrete chains are in the detail.
+A leg of a placement is not run when the same leg of a proper sub-chain (a
+subsequence of the chain) already shows a violation: the defect is reported
+once, at its smallest placement, and counted as *_subsumed_by_violating_subchain
+for the larger ones (on a tree without violations nothing is subsumed and every
+placement is executed).  So every reported chain is minimal.  In keys grad /
+value_and_grad / jvp are written AD, and in the unseeded leg a compiling
+construct that stands next to non-compiling ones (it is only the witness that
+something gets compiled) is written COMPILED; the concrete chain is in the
+detail.
 """
 
 from __future__ import annotations
@@ -49,7 +53,8 @@ RULE = (
     + " to nesting depth 2 (quick: 182 chains) / 3 (thorough: 2379 chains), each around every one of the 4 "
     "site kinds " + ",".join(P.SITES) + "; a placement = (site kind, chain), run unseeded and under seed; "
     "distinct_nontrivial = distinct placements whose composition JAX itself accepts for a deterministic "
-    "stand-in of the site (every placement has the site under >= 1 construct)"
+    "stand-in of the site (every placement has the site under >= 1 construct); a leg whose proper sub-chain "
+    "already violates in the same leg is counted as subsumed instead of being re-run"
 )
 ASSUMPTIONS = [
     "JAX API translation layer (DESIGN §2); the sample primitive's default JVP rule is one of the three "
@@ -66,31 +71,35 @@ EXTRA_COVERAGE = {
     "site_kinds": list(P.SITES),
     "max_depth": {"quick": 2, "thorough": 3},
 }
+# floors hold both on the tree as it is (placements with AD / checkpoint / custom_jvp end as
+# violations or are subsumed by one) and on a tree where those raise the dedicated error
 FLOORS = {
     "quick": {
         "placements": 650,
-        "unseeded_compiled_checked": 450,
-        "raised_dedicated": 200,
-        "unseeded_vmap_checked": 60,
-        "seeded_checked": 650,
-        "seeded_ok": 90,
+        "unseeded_compiled_checked": 300,
+        "raised_dedicated": 300,
+        "unseeded_vmap_checked": 80,
+        "raised_under_vmap": 80,
+        "seeded_checked": 250,
+        "seeded_ok": 100,
         "seeded_raised_dedicated": 100,
-        "staged_programs_scanned": 90,
+        "staged_programs_scanned": 100,
         "flag_checks": 650,
     },
     "thorough": {
-        "placements": 8000,
-        "unseeded_compiled_checked": 6000,
+        "placements": 8500,
+        "unseeded_compiled_checked": 2000,
         "raised_dedicated": 2000,
-        "unseeded_vmap_checked": 1200,
-        "seeded_checked": 8000,
+        "unseeded_vmap_checked": 500,
+        "raised_under_vmap": 500,
+        "seeded_checked": 2000,
         "seeded_ok": 500,
-        "seeded_raised_dedicated": 1500,
+        "seeded_raised_dedicated": 800,
         "staged_programs_scanned": 500,
-        "flag_checks": 8000,
+        "flag_checks": 8500,
     },
 }
-TIMEOUT_S = {"quick": 1500, "thorough": 7200}
+TIMEOUT_S = {"quick": 1500, "thorough": 5400}
 
 
 def plan(tier, seed):
@@ -219,20 +228,68 @@ def _f(v):
     return float(v) if v.shape == () else v.tolist()
 
 
+def _shared_path(mk):
+    """Results are deterministic functions of (kind, chain, seed, leg), so the
+    workers of one run share them through the run's scratch directory (deleted
+    with it).  Purely an economy: a miss is evaluated locally."""
+    import os
+
+    bd = os.environ.get("VERIF_BUILD_DIR")
+    if not bd or os.environ.get("C14_NO_SHARED_MEMO"):
+        return None
+    d = os.path.join(os.path.dirname(bd), "c14_memo")
+    os.makedirs(d, exist_ok=True)
+    kind, chain, seed, legname = mk
+    return os.path.join(d, f"{kind}.{'-'.join(chain)}.{seed}.{legname}.json")
+
+
+def _memo_get(mk):
+    import json
+    import os
+
+    if mk in _MEMO:
+        return _MEMO[mk]
+    path = _shared_path(mk)
+    if path and os.path.exists(path):
+        try:
+            with open(path) as fh:
+                _MEMO[mk] = json.load(fh)
+            return _MEMO[mk]
+        except (OSError, ValueError):
+            return None
+    return None
+
+
+def _memo_put(mk, leg):
+    import json
+    import os
+
+    _MEMO[mk] = leg
+    path = _shared_path(mk)
+    if path:
+        tmp = f"{path}.{os.getpid()}.tmp"
+        with open(tmp, "w") as fh:
+            json.dump(leg, fh, default=str)
+        os.replace(tmp, path)
+
+
 def evaluate(kind, chain, seed, legs=("unseeded", "seeded")):
-    """Run (the requested legs of) one placement; memoised per worker and leg.
-    Returns {"control": why|None, "unseeded": {...}, "seeded": {...}}; each leg
-    has "outcome" (class counted in evidence), "symptom" (None or the violated
-    clause) and the observed values."""
+    """Run (the requested legs of) one placement.  Returns {"control": why|None,
+    "unseeded": {...}, "seeded": {...}}; each leg has "outcome" (class counted
+    in evidence), "symptom" (None or the violated clause) and the observed
+    values."""
+    chain = tuple(chain)
     rec = {"control": _control(chain, seed)}
     if rec["control"] is not None:
         return rec
     for legname in legs:
         mk = (kind, chain, seed, legname)
-        if mk not in _MEMO:
+        leg = _memo_get(mk)
+        if leg is None:
             f = P.build(kind, chain)
-            _MEMO[mk] = (_unseeded_leg if legname == "unseeded" else _seeded_leg)(f, chain, seed)
-        rec[legname] = _MEMO[mk]
+            leg = (_unseeded_leg if legname == "unseeded" else _seeded_leg)(f, chain, seed)
+            _memo_put(mk, leg)
+        rec[legname] = leg
     return rec
 
 
@@ -354,10 +411,12 @@ def _in_claim(chain, legname):
     return True
 
 
-def minimise(kind, chain, seed, legname, symptom):
-    """Smallest sub-chain (subsequence of the chain, sizes tried in increasing
-    order, positions in lexicographic order) that shows the same symptom in the
-    same leg; the chain itself if no proper sub-chain does."""
+def subsumed_by(kind, chain, seed, legname):
+    """Smallest proper sub-chain (subsequence; sizes in increasing order,
+    positions in lexicographic order) whose same leg already shows a violation,
+    or None.  Such a placement is not run again: the defect is reported once, at
+    its smallest placement, and the budget goes to placements that can show
+    something new.  On a tree without violations nothing is subsumed."""
     import itertools
 
     chain = tuple(chain)
@@ -367,9 +426,9 @@ def minimise(kind, chain, seed, legname, symptom):
             if not _in_claim(cand, legname):
                 continue
             r = evaluate(kind, cand, seed, legs=(legname,))
-            if r["control"] is None and r[legname]["symptom"] == symptom:
-                return cand
-    return chain
+            if r["control"] is None and r[legname]["symptom"] is not None:
+                return cand, r[legname]["symptom"]
+    return None
 
 
 def key_chain(chain, legname):
@@ -396,7 +455,7 @@ def run_case(case, ctx):
     seed = int(case.get("seed", ctx.seed))
     for kind in case["sites"]:
         ctx.evaluation()
-        rec = evaluate(kind, chain, seed)
+        rec = evaluate(kind, chain, seed, legs=())
         if rec["control"] is not None:
             ctx.count("jax_rejects_composition")
             if ctx.counters.get("jax_rejects_composition", 0) <= 2:
@@ -406,7 +465,13 @@ def run_case(case, ctx):
         ctx.count("placements")
         ctx.distinct("nontrivial", [kind, list(chain)])
         for legname in ("unseeded", "seeded"):
-            leg = rec[legname]
+            sub = subsumed_by(kind, chain, seed, legname)
+            if sub is not None:
+                ctx.count(f"{legname}_subsumed_by_violating_subchain")
+                rec[legname] = {"outcome": "subsumed", "by": P.show(sub[0]), "symptom_there": sub[1]}
+                continue
+            leg = evaluate(kind, chain, seed, legs=(legname,))[legname]
+            rec[legname] = leg
             ctx.count(leg["outcome"])
             if legname == "unseeded":
                 if P.has_vmap(chain):
@@ -419,14 +484,13 @@ def run_case(case, ctx):
                     ctx.count("staged_programs_scanned")
             if leg["symptom"] is None:
                 continue
-            mini = minimise(kind, chain, seed, legname, leg["symptom"])
-            key = f"{legname}|{key_chain(mini, legname)}|{leg['symptom']}"
+            key = f"{legname}|{key_chain(chain, legname)}|{leg['symptom']}"
             ctx.violation(
                 key,
                 {
                     "site": kind,
                     "chain": P.show(chain),
-                    "minimal_chain": P.show(mini),
+                    "minimal": "no proper sub-chain shows a violation in this leg",
                     "x": _f(_x0(seed)),
                     "key_ints": [14000 + 10 * seed + i for i in range(4)],
                     "leg": legname,
@@ -434,11 +498,11 @@ def run_case(case, ctx):
                     "expected": leg.get("expected"),
                     "repro": (
                         "from lib import c14_placements as P; from genjax import seed; import jax, jax.numpy as jnp; "
-                        f"f = P.build({kind!r}, {mini!r}); "
+                        f"f = P.build({kind!r}, {chain!r}); "
                         + (
                             "print(f(jnp.float32(0.2)))"
                             if legname == "unseeded"
-                            else "print([seed(f)(jax.random.key(k), jnp.float32(0.2)) for k in (1, 1, 2)])"
+                            else "sf = seed(f); print([sf(jax.random.key(k), jnp.float32(0.2)) for k in (1, 1, 2)])"
                         )
                     ),
                 },
